@@ -282,7 +282,8 @@ JudgeRoute(s, e, p) ==
        C03_route_invariants_non_decreasing |-> GK(followable, acc.inv, IF acc.invK THEN "F7" ELSE IF acc.invK2 THEN "F11" ELSE ""),
        C17_route_gated         |-> G(good, acc.gate),
        C17_route_blocked_only_by_a_swap_switch |-> G(~e.ok /\ e.err = "disabled" /\ wellformed, \E k \in 1..n : ~Pools(s)[e.hops[k].pool].sw),
-       C12_route_quote_equals_execution |-> G(good /\ simple, e.quote.ok /\ e.quote.ret = e.final),
+       \* every executed route over pairwise distinct pools, well-formed or not: what was executed is what was quoted
+       C12_route_quote_equals_execution |-> G(e.ok /\ n > 0 /\ simple, e.quote.ok /\ e.quote.ret = e.final),
        C13_minimum_receive_enforced |-> G(good /\ e.min_receive.set, BLe(e.min_receive.v, e.final)),
        C13_minimum_receive_rejected_only_when_short |-> G(~e.ok /\ e.err = "min_receive" /\ wellformed /\ simple /\ e.quote.ok /\ e.min_receive.set,
                                                          BLt(e.quote.ret, e.min_receive.v)),
